@@ -108,7 +108,7 @@ def _r10(ctx, pkg):
                           f"`.{c.func.attr}({lit!r})` removes any run of the CHARACTERS {sorted(set(lit))}, not the prefix {lit!r}: text that merely starts with one of these letters "
                           "loses its beginning (a KROME column list `r,r,p,...` after `@format:` becomes `,r,p,...`)",
                           expected="replace(prefix, '', 1) / slicing / removeprefix", found=ast.unparse(c)[:80])
-    fn = pkg.cls("KROMEReaction").methods.get("preprocessing")
+    fn = pkg.folded("KROMEReaction", "preprocessing") if pkg.cls("KROMEReaction").methods.get("preprocessing") else None      # class-level directive constants in place
     st = [a for a in ast.walk(fn) if isinstance(a, ast.Assign) and any(isinstance(t, ast.Attribute) and t.attr == "reacformat" for t in a.targets)] if fn else []
     KF = "naunet/reactions/kromereaction.py"
     if len(st) != 1:
@@ -131,12 +131,32 @@ def _r1(ctx, pkg):
     fn = pkg.func(NET, "_reaction_factory")
     ctx.saw(NET, "_reaction_factory")
     fl = Flow(fn, NET)
-    made = [f for f in fl.facts if f.kind == "return" and f.value and f.value[0] == "call" and any(k == "react_string" for k, _ in f.value[3])]
+    # the construction by role: a returned call of the class looked up in the format table (or any call given `react_string=`),
+    # with the line as its one argument -- positional or keyword; a conditional return is one return per arm
+    from types import SimpleNamespace
+
+    def arms(v, guards):
+        v = simp(v)
+        if v[0] in ("phi", "ifexp"):
+            return arms(v[2], tuple(guards) + ((v[1], True),)) + arms(v[3], tuple(guards) + ((v[1], False),))
+        return [(v, tuple(guards))]
+
+    def line_of(v):
+        if v[0] != "call":
+            return None
+        kws = dict(v[3])
+        if "react_string" in kws:
+            return kws["react_string"]
+        if len(v[2]) == 1 and not v[3] and any(x == ("global", "supported_reaction_class") for x in walk(v[1])):
+            return v[2][0]
+        return None
+    made = [SimpleNamespace(value=v, guards=g, line=f.line, arg=simp(line_of(v))) for f in fl.facts if f.kind == "return" and f.value
+            for v, g in arms(f.value, f.guards) if line_of(v) is not None]
     if len(made) != 1:
         ctx.unrec("R1", "_reaction_factory", (NET, fn.lineno), f"expected one `return initializer(react_string=..)`, found {len(made)}")
     else:
         f = made[0]
-        arg = simp(dict(f.value[3])["react_string"])
+        arg = f.arg
         stripped = False
         for g, pol in f.guards:
             for x in walk(simp(g)):
@@ -159,7 +179,8 @@ def _r1(ctx, pkg):
         pre = any(isinstance(x, tuple) and len(x) >= 3 and x[0] == "meth" and x[2] == "preprocessing" for x in walk(arg))
         ctx.check(pre, "R1", "_reaction_factory:preprocessing", (NET, f.line), "the line handed to the parser is the class's preprocessing of the raw line")
     # base preprocessing is the identity
-    base = pkg.method("Reaction", "preprocessing")
+    pkg.method("Reaction", "preprocessing")
+    base = pkg.folded("Reaction", "preprocessing")
     ctx.saw(R, "Reaction.preprocessing")
     bfl = Flow(base, R)
     rets = [f for f in bfl.facts if f.kind == "return"]
@@ -173,7 +194,8 @@ def _r1(ctx, pkg):
     over = sorted(c for c in pkg.subclasses("Reaction") if "preprocessing" in pkg.classes[c].methods)
     ctx.check(over == ["KROMEReaction"], "R1", "preprocessing overrides", (R, base.lineno),
               "only KROME (whose syntax defines comment and directive lines) filters lines", expected="['KROMEReaction']", found=str(over))
-    k = pkg.method("KROMEReaction", "preprocessing")
+    pkg.method("KROMEReaction", "preprocessing")
+    k = pkg.folded("KROMEReaction", "preprocessing")          # class-level prefix tables written in place, loops over them unrolled
     kfl = Flow(k, "naunet/reactions/kromereaction.py")
     # by paths, whatever the arrangement of the returns: exactly one path keeps the line (returns line.strip()); it is the path on
     # which the line starts with none of the comment / directive prefixes; every other path returns ""
@@ -393,8 +415,22 @@ def _split_formats(ctx, pkg):
                 return sp, total
             return None
 
+        def keyed(v):
+            """`dict(zip(<literal names>, <record>))[<name>]` is <record>[<position of the name>]"""
+            if v[0] == "sub" and v[2][0] == "const":
+                d = strip_transparent(simp(v[1]))
+                if d[0] == "call" and d[1] == ("global", "dict") and len(d[2]) == 1 and not d[3]:
+                    z = strip_transparent(d[2][0])
+                    if z[0] == "call" and z[1] == ("global", "zip") and len(z[2]) == 2 and not z[3] and z[2][0][0] in ("tuple", "list") \
+                            and all(e[0] == "const" for e in z[2][0][1]):
+                        names = [e[1] for e in z[2][0][1]]
+                        if names.count(v[2][1]) == 1:
+                            return ("sub", z[2][1], ("const", names.index(v[2][1])))
+            return v
+
         def scalar(v):
             """(record value, position, counted from the end?) of one field of the record"""
+            v = keyed(v)
             if v[0] == "item" and isinstance(v[2], int) and record(v[1]):
                 return strip_transparent(simp(v[1])), v[2]
             if v[0] == "sub" and v[2][0] == "const" and isinstance(v[2][1], int) and not isinstance(v[2][1], bool) and record(v[1]):
@@ -403,7 +439,15 @@ def _split_formats(ctx, pkg):
 
         def block(v):
             """(record value, first field, last field + 1, star info | None) of a run of fields: a slice of the starred part of a destructuring or of the record itself"""
+            if v[0] in ("list", "tuple") and v[1]:
+                # the fields listed one by one: a run when they are consecutive fields of one record
+                fs = [scalar(_unwrap(e)[0]) for e in v[1]]
+                if all(fs) and len({f_[0] for f_ in fs}) == 1 and all(f_[1] >= 0 for f_ in fs) and [f_[1] for f_ in fs] == list(range(fs[0][1], fs[0][1] + len(fs))):
+                    return fs[0][0], fs[0][1], fs[0][1] + len(fs), None
+                return None
             b = match(("sub", V("x"), ("slice", V("lo"), V("hi"), NONE)), v)
+            if b and b["x"][0] in ("list", "tuple") and b["lo"][0] == "const" and b["hi"][0] == "const" and all(x is None or (isinstance(x, int) and x >= 0) for x in (b["lo"][1], b["hi"][1])):
+                return block((b["x"][0], b["x"][1][b["lo"][1]:b["hi"][1]]))
             if not b or b["lo"][0] != "const" or b["hi"][0] != "const" or not isinstance(b["hi"][1], int) or not (b["lo"][1] is None or isinstance(b["lo"][1], int)):
                 return None
             lo, hi = b["lo"][1] or 0, b["hi"][1]
@@ -880,4 +924,28 @@ BENIGN += [
     {"name": "krome-species-table-getattr", "edits": [
         {"file": KR, "old": _KR_CLS, "new": '    _species_columns = {"r": "reactants", "p": "products"}\n\n' + _KR_CLS},
         {"file": KR, "old": _KR_RP, "new": _KR_SIDE}]},
+]
+_FACT_OLD = "    react_string = initializer.preprocessing(react_string)\n    if react_string and react_string.strip():\n        return initializer(react_string=react_string)\n    return None\n"
+_UM_NAMES = '            names = ("idx", "code", "r1", "r2", "p1", "p2", "p3", "p4", "nte", "a", "b", "c", "lt", "ut")\n'
+
+
+def _um_dict(names=_UM_NAMES):
+    return [{"file": U, "old": _UM_OLD, "new": names + '            rec = dict(zip(names, react_string.split(":")))\n            rps = [rec[k] for k in ("r1", "r2", "p1", "p2", "p3", "p4")]\n'},
+            {"file": U, "old": _UM_NUM, "new": '            self.alpha = float(rec["a"])\n            self.beta = float(rec["b"])\n            self.gamma = float(rec["c"])\n            self.temp_min = float(rec["lt"])\n'
+             '            self.temp_max = float(rec["ut"])\n            self.idxfromfile = int(rec["idx"])\n            self.code = rec["code"]\n'}]
+
+
+MUTANTS += [
+    {"name": "factory-guard-clause-raw-truthiness", "file": NET, "old": _FACT_OLD, "new": "    line = initializer.preprocessing(react_string)\n    if not line:\n        return None\n    return initializer(line)\n", "rules": ["R1"]},
+    {"name": "umist-dict-record-names-shifted", "edits": _um_dict(_UM_NAMES.replace('"nte", "a", "b", "c"', '"a", "b", "c", "nte"')), "rules": ["R5"]},
+    {"name": "krome-prefix-table-lacks-slashes", "edits": [
+        {"file": KR, "old": '        if line.startswith(("#", "//")):\n', "new": '        if line.startswith(cls._comment_marks):\n'},
+        {"file": KR, "old": _KR_CLS, "new": '    _comment_marks = ("#",)\n\n' + _KR_CLS}], "rules": ["R1"]},
+]
+BENIGN += [
+    {"name": "factory-guard-clause-positional", "file": NET, "old": _FACT_OLD, "new": "    line = initializer.preprocessing(react_string)\n    if not line or not line.strip():\n        return None\n    return initializer(line)\n"},
+    {"name": "umist-record-dict-of-names", "edits": _um_dict()},
+    {"name": "krome-prefix-table-class-constant", "edits": [
+        {"file": KR, "old": '        if line.startswith(("#", "//")):\n', "new": '        if line.startswith(cls._comment_marks):\n'},
+        {"file": KR, "old": _KR_CLS, "new": '    _comment_marks = ("#", "//")\n\n' + _KR_CLS}]},
 ]
